@@ -96,9 +96,13 @@ def reactor_trace(r, label):
     # (the reactor's own record is not trusted to be per assembly); the gap
     # entry is the reactor's
     import dassh
-    lims = [float(dassh.assembly.calculate_min_dz(
-        a, r.inlet_temp, a._estimated_T_out, r._is_adiabatic)[0])
-        for a in r.assemblies]
+    lims = []
+    for a in r.assemblies:
+        for reg in a.region:        # every region of every assembly
+            mod = dassh.region_rodded if reg.is_rodded \
+                else dassh.region_unrodded
+            lims.append(float(mod.calculate_min_dz(
+                reg, r.inlet_temp, a._estimated_T_out, r._is_adiabatic)[0]))
     lims += [float(x) for x in r.min_dz['dz'][len(r.assemblies):]]
     cfg = {'B': [L(b) for b in r.axial_bnds],
            'limit': L(min(lims)),
